@@ -216,7 +216,7 @@ theorem lex_amount (C : Classes) (hC : ClassesOk C = true) {z : Z} (hc : z.col =
 
 /-! ### lines, transactions, journals -/
 
-theorem letter_bytes : ∀ c : UInt8, (!isLetter c || (!indentByte c && !isBlank c)) = true :=
+theorem letter_bytes : ∀ c : UInt8, (!isLetter c || (!isWhitespace c && !isBlank c)) = true :=
   forall_uint8 _ (by decide +kernel)
 
 /-- **A posting line**: `'    ' account [ '  ' amount ] LF` lexes to Indent, Account, the amount's
@@ -231,7 +231,7 @@ theorem lex_posting_line (C : Classes) (hC : ClassesOk C = true) {z : Z} (hz : L
   simp only [hc0, Bool.not_true, Bool.false_or, Bool.and_eq_true, Bool.not_eq_true'] at lb
   -- the indent
   have h1 := next_indent C hz.1 hz.2 ha1 (by simp) (by intro c hc; simp at hc; rw [hc]; decide)
-    (by rw [hacct]; exact Stops.cons _ lb.1)
+    (by rw [hacct]; exact StopsL.cons _ lb.1)
   have e1 : tokAt .indent [0x20, 0x20, 0x20, 0x20] z ([0x20, 0x20, 0x20, 0x20] : Bytes).length =
       tokP .indent [0x20, 0x20, 0x20, 0x20] z.line z.before.length 0 := by
     simp [tokAt, tokP, Z.position, hz.2, Nat.add_comm]
